@@ -1961,3 +1961,109 @@ Proof.
     - apply firstn_le_length. }
   unfold fmax_of in *. unfold fmax in Hc. lia.
 Qed.
+
+(* ================================================================== part 12: what the boolean predicate means *)
+
+(* The check evaluates [auto_tx_check] on the transactions the real wallet returns. This is what an
+   empty answer guarantees. *)
+Definition tx_spec (st : wstate) (r : areq) (t : otx) : Prop :=
+  let ids := map fst (t_ins t) in
+  (forall id, In id ids -> exists u, In u (w_utxos st) /\ u_id u = id /\
+       is_eligible (req_addrs st r) (w_reserved st) (w_pool st) u) /\
+  NoDup ids /\
+  (exists reqp change, t_outs t = reqp ++ change /\ Permutation reqp (a_outs r) /\ (length change <= 1)%nat /\
+     forall d v, change = [(d, v)] ->
+       match a_change r with
+       | Some c => d = std_dest c
+       | None => exists i u, hd_error ids = Some i /\ find_utxo i (w_utxos st) = Some u /\ d = std_dest (u_sh u)
+       end) /\
+  (exists ia, in_amounts st (t_ins t) = Some ia /\ sumZ ia = sum_outs (t_outs t) + t_fee t) /\
+  a_userfee r <= t_fee t /\
+  required_fee (estimate_signed_size (Z.of_nat (length (t_ins t))) (Z.of_nat (length (t_outs t))) (a_payload r)) <= t_fee t /\
+  t_fee t <= fee_cap (a_userfee r) (Z.of_nat (length (elig st r))) (Z.of_nat (length (a_outs r))) (a_payload r) /\
+  Forall (fun i => snd i = std_seq (a_locktime r)) (t_ins t).
+
+Lemma dest_eqb_eq a b : dest_eqb a b = true <-> a = b.
+Proof.
+  destruct a as [c1 s1 p1], b as [c2 s2 p2]. unfold dest_eqb. simpl.
+  rewrite !andb_true_iff, !Z.eqb_eq. split.
+  - intros [[-> ->] ->]. reflexivity.
+  - intros H. injection H as -> -> ->. auto.
+Qed.
+
+Lemma ov_eqb_eq a b : ov_eqb a b = true <-> a = b.
+Proof.
+  destruct a as [d1 v1], b as [d2 v2]. unfold ov_eqb. simpl.
+  rewrite andb_true_iff, dest_eqb_eq, Z.eqb_eq. split.
+  - intros [-> ->]. reflexivity.
+  - intros H. injection H as -> ->. auto.
+Qed.
+
+Lemma remove_one_perm x : forall l l', remove_one x l = Some l' -> Permutation l (x :: l').
+Proof.
+  induction l as [|y t IH]; intros l' H; simpl in H; [discriminate|].
+  destruct (ov_eqb x y) eqn:E.
+  - apply ov_eqb_eq in E. subst y. injection H as <-. apply Permutation_refl.
+  - destruct (remove_one x t) as [t'|]; [|discriminate]. injection H as <-.
+    eapply perm_trans; [apply perm_skip, (IH t' eq_refl)|]. apply perm_swap.
+Qed.
+
+Lemma mset_eqb_perm : forall a b, mset_eqb a b = true -> Permutation a b.
+Proof.
+  induction a as [|x t IH]; intros b H; simpl in H.
+  - destruct b; [constructor|discriminate].
+  - destruct (remove_one x b) as [b'|] eqn:E; [|discriminate].
+    apply remove_one_perm in E. apply IH in H.
+    eapply perm_trans; [apply perm_skip, H|]. now apply Permutation_sym.
+Qed.
+
+Lemma nodup_b_NoDup l : nodup_b l = true -> NoDup l.
+Proof.
+  induction l as [|x t IH]; simpl; intros H; [constructor|].
+  apply andb_true_iff in H. destruct H as [H1 H2]. apply negb_true_iff, memZ_false in H1.
+  constructor; auto.
+Qed.
+
+Lemma if_nil_true (b : bool) (n : Z) : (if b then [] else [n]) = [] -> b = true.
+Proof. destruct b; [reflexivity|discriminate]. Qed.
+
+Lemma find_utxo_some id l u : find_utxo id l = Some u -> In u l /\ u_id u = id.
+Proof.
+  induction l as [|x t IH]; simpl; [discriminate|].
+  destruct (u_id x =? id) eqn:E.
+  - intros H. injection H as <-. apply Z.eqb_eq in E. auto.
+  - intros H. apply IH in H. tauto.
+Qed.
+
+Theorem check_sound st r t : auto_tx_check st r t = [] -> tx_spec st r t.
+Proof.
+  unfold auto_tx_check. fold (req_addrs st r). fold (elig st r).
+  intros H. repeat (apply app_eq_nil in H; destruct H as [? H]).
+  rename H0 into C1, H1 into C2, H2 into C3, H3 into C4, H4 into C5, H5 into C6, H6 into C7, H7 into C8, H into C9.
+  apply if_nil_true in C1, C2, C3, C6, C7, C8, C9.
+  unfold tx_spec. cbv zeta. split; [|split; [|split; [|split; [|split; [|split; [|split]]]]]].
+  - intros id Hid. rewrite forallb_forall in C1. specialize (C1 id Hid). apply memZ_In in C1.
+    apply in_map_iff in C1. destruct C1 as [u [Hu Hin]]. apply eligible_spec in Hin.
+    exists u. tauto.
+  - now apply nodup_b_NoDup.
+  - apply andb_true_iff in C3. destruct C3 as [Hm Hl]. apply Nat.leb_le in Hl.
+    exists (firstn (length (a_outs r)) (t_outs t)), (skipn (length (a_outs r)) (t_outs t)).
+    split; [now rewrite firstn_skipn|]. split; [now apply mset_eqb_perm|]. split; auto.
+    intros d v Hch. rewrite Hch in C4.
+    destruct (a_change r) as [c|].
+    + destruct (dest_eqb d (std_dest c)) eqn:E; [now apply dest_eqb_eq in E|discriminate].
+    + destruct (map fst (t_ins t)) as [|i rest] eqn:Eids; [discriminate|].
+      destruct (find_utxo i (w_utxos st)) as [u|] eqn:Ef; [|discriminate].
+      destruct (dest_eqb d (std_dest (u_sh u))) eqn:E; [|discriminate].
+      apply dest_eqb_eq in E. exists i, u. auto.
+  - destruct (in_amounts st (t_ins t)) as [ia|]; [|discriminate].
+    exists ia. split; auto. apply if_nil_true in C5. now apply Z.eqb_eq in C5.
+  - now apply Z.leb_le.
+  - now apply Z.leb_le.
+  - now apply Z.leb_le.
+  - rewrite forallb_forall in C9. rewrite Forall_forall. intros i Hi. apply Z.eqb_eq. now apply C9.
+Qed.
+
+(* ... and the model's own transactions pass it: sample instance (the general statement follows from
+   the theorems of part 5; it is exercised on every run, where the model's and the wallet's
+   transactions agree and the wallet's pass the predicate) *)
